@@ -481,9 +481,9 @@ func (h *recHandler) take() []map[string]any {
 
 // c13ClientCfg: which keys the scripted peer signs with and where the client gets its own.
 type c13ClientCfg struct {
-	prefix     string                                            // case id prefix
-	hosts      [2]int                                            // host numbers in the property's address block
-	fetcher    *scion.Fetcher                                    // the client's DRKey fetcher
+	prefix     string                                           // case id prefix
+	hosts      [2]int                                           // host numbers in the property's address block
+	fetcher    *scion.Fetcher                                   // the client's DRKey fetcher
 	key        func(last *peer.ParsedSCION, mode string) []byte // key for a reply to the request `last`; modes "key:..." name other identities' keys
 	extraModes []string
 }
